@@ -136,7 +136,18 @@ def run(ctx, F):
         f = cs.fn
         if "close_all_stw_buckets" in f.q:
             g = guard_find(f, cs.bb, r"is_stw", True)
-            ctx.judge(bool(g) and len(guards(f, cs.bb)) == 1, "C15.close-at-end", "close_all_stw_buckets closes every STW bucket", expected="guarded exactly by id.is_stw()",
+            direct = bool(g) and len(guards(f, cs.bb)) == 1
+            # equivalent idiom: iter().filter(|(stage, _)| stage.is_stw()) ... for bucket in .. { bucket.close() }
+            top = outermost(F, f)
+            filt = False
+            for h in [top] + list(closures_of(F, top)):
+                for c in live_calls(h, name="filter"):
+                    cl = [x for x in walk(strip(h.flow.arg_tree(c, len(c.args) - 1))) if x and x[0] == "agg" and x[1][0] == "closure" and x[1][1] in F.fns]
+                    if len(cl) == 1:
+                        rts = [show(strip(t)) for _, t in F.fns[cl[0][1][1]].flow.return_trees()]
+                        filt = filt or (bool(rts) and all(re.search(r"is_stw\(", r) and not r.startswith("Not(") for r in rts))
+            only_iter = all(re.match(r"^<\w+ as Iterator>::next\(", s) for s in [show(p.tree) for p in guards(f, cs.bb)])
+            ctx.judge(direct or (filt and only_iter), "C15.close-at-end", "close_all_stw_buckets closes every STW bucket", expected="guarded exactly by id.is_stw() (if, or an iterator filter on is_stw)",
                       found=str(guard_strs(f, cs.bb)), where=where(f, cs.line), key="C15.close-at-end|all")
         if "schedule_concurrent_packets" in f.q:
             ctx.judge("Concurrent" in show(strip(f.flow.arg_tree(cs, 0))), "C15.close-at-end", "only the Concurrent bucket is closed outside the end of GC",
